@@ -130,8 +130,12 @@ class LogReader:
         if self.close_fault:
             raise OSError("injected fault: the device reports an error on close")
 
+    read_fault = None
+
     def read(self):
         self.started += 1
+        if self.read_fault is not None and self.started == self.read_fault:
+            raise OSError("injected fault: the device fails at read %d" % self.read_fault)
         b = self._r.read()
         if b is None:
             self.nones += 1
@@ -237,6 +241,7 @@ def make_factory(cfg):
             inner = L["util"].AudioReader(data, block_dur=BLOCK, hop_dur=cfg.get("hop"), sr=sr, sw=sw, ch=ch)
         ctx.inner = LogReader(inner)
         ctx.inner.close_fault = bool(cfg.get("close_fault"))
+        ctx.inner.read_fault = cfg.get("read_fault")
         reader = ctx.inner
         ctx.saver = None
         ctx.outer = None
@@ -267,8 +272,9 @@ def make_factory(cfg):
                 pl = FakePlayer()
                 x = w.PlayerWorker(pl)
                 ctx.players = getattr(ctx, "players", []) + [pl]
-            elif o == "print":
-                x = w.PrintWorker("{id} {start} {end} {duration}", "%S")
+            elif o in ("print", "print_ts"):
+                # print_ts: the template also names {timestamp}, with a format spec that keeps the line deterministic
+                x = w.PrintWorker("{id} {start} {end} {duration}" + ("{timestamp:.0s}" if o == "print_ts" else ""), "%S")
                 ctx.printers.append(x)
             elif o == "join":
                 fn = os.path.join(ctx.dir, ("joined%d" if cfg.get("noext") else "joined%d.wav") % len(ctx.joiners))
@@ -331,6 +337,9 @@ def make_factory(cfg):
                     if ctx.second.saver is not None:
                         ctx.second.saver.start()
                     ctx.second.tw.start_all()
+                if cfg.get("closed_before_start"):
+                    # somebody (an earlier pipeline on the same reader) closed the reader after this worker was built
+                    ctx.inner.close()
                 if cfg.get("late_start"):
                     # the producer is started before its consumers: messages wait in the inboxes meanwhile
                     ctx.tw.start()
@@ -585,6 +594,21 @@ def check(ex, ctx):
             return "second pipeline (pattern %s) in the same process: %s" % (cfg["second"], m2)
     if cfg["kind"] == "cli" and ctx.status != 0:
         return "cmdline.main returned %r" % (ctx.status,)
+    if cfg.get("read_fault"):
+        # the source failed in the middle of the stream: the tokenizer thread is dead; what is demanded is that a stop
+        # still ends every other thread, that nothing delivered is wrong, and that the saved stream holds the blocks read
+        exp_all = exp_for(cfg, ctx.data)
+        for n, r in enumerate(ctx.recs):
+            if r.log != [(i, d, s) for i, d, s, e, du in exp_all][: len(r.log)]:
+                return "after the source failed, observer #%d holds detections that are not a prefix of the stream's" % n
+        if ctx.saver is not None:
+            try:
+                sr_, sw_, ch_, frames = _read_saved(ctx.saver_file, sr, sw, ch)
+            except Exception as exc:
+                return "after the source failed, the saved stream is not a readable wav: %r" % (exc,)
+            if frames != b"".join(ctx.inner.blocks):
+                return "after the source failed, the saved stream holds %d bytes, %d were read" % (len(frames), len(b"".join(ctx.inner.blocks)))
+        return None
     if cfg["kind"] in ("stop", "cli"):
         at_stop = getattr(ctx, "started_at_stop", None)
         if at_stop is not None and ctx.inner.started - at_stop > 1:
@@ -892,6 +916,9 @@ def plan(prop, tier):
         tasks.append((dict(kind="run", pattern="AaA", second="AAAA", observers=["rec"], split="s0"), 0, 0, "sync", None, None))
         for p in ("AaA", "AAAA"):
             tasks.append((dict(kind="run", pattern=p, observers=["play", "rec"], split="s2"), 1, 0, "sync", None, None))
+        # a reader closed between the worker's construction and its start; a print template naming {timestamp} with a format spec
+        tasks.append((dict(kind="run", pattern="AaA", observers=["rec"], split="s0", closed_before_start=True), 0, 0, "sync", None, None))
+        tasks.append((dict(kind="run", pattern="AaA", observers=["print_ts", "rec"], split="s0"), 1, 0, "sync", None, None))
         # every split option reaches split() under its own name: exactly one / both of the two boolean modes
         for sp, p in (("s1d", "AAaaA"), ("s1d", "AaA"), ("s1s", "AAAA"), ("s1s", "AAAAaA"), ("s1sd", "AAAAAaaA")):
             tasks.append((dict(kind="run", pattern=p, observers=["rec"], split=sp), 0, 0, "sync", None, None))
@@ -977,6 +1004,10 @@ def plan(prop, tier):
         tasks.append((dict(kind="stop", pattern="A" * 300, observers=["rec"], split="s2", saver=True, cache=0.5), 10 ** 6, 0, "directed", None, None))
         for p in ("AaA", "AAAA"):
             tasks.append((dict(kind="stop", pattern=p, observers=["play"], split="s2"), K, 0, "sync", None, None))
+        # the source fails at read k: the tokenizer thread dies, a stop must still end the saver and the observers
+        for k_ in (1, 3):
+            tasks.append((dict(kind="stop", pattern="AaAA", observers=["rec"], split="s0", saver=True, cache=0.1, read_fault=k_,
+                               tolerate_crash=["TokenizerWorker"]), 0, 0, "sync", None, None))
         # a logger on the worker and a source that has no stream position (lazily read file); standard input of a live producer
         for p in ("AaAA", "AAAA"):
             tasks.append((dict(kind="stop", pattern=p, observers=["rec"], split="s0", logger=True, lazy_file=True), 0 if quick else 1, 0, "sync", None, None))
@@ -1036,6 +1067,8 @@ def plan(prop, tier):
             tasks.append((dict(base, pattern="AaAaA", observers=["join"], sw=1, ch=3, silence=sil), 0, 0, "sync", None, None))
         # an output format that needs an external encoder (none can be run here): the audio is kept in the fallback wav
         tasks.append((dict(base, pattern="AaA", observers=[], saver=True, cache=0.1, saver_name="stream.ogg"), 0, 0, "sync", None, None))
+        # the command line program joining detections of a wav whose rate is not the -r default
+        tasks.append((dict(kind="cli", pattern="AaA", observers=[], split="s0", argv=["-O", "<WD>stream.wav", "-j", "0.2"], silence=0.2), 0, 0, "sync", None, None))
         # the command line program saving a stream in which nothing is detected (wav and raw)
         for argv in (["-O", "<WD>stream.raw"], ["-O", "<WD>stream.wav"], ["-O", "<WD>stream.raw", "-j", "0.1"]):
             tasks.append((dict(kind="cli", pattern="aaa", observers=[], split="s0", argv=argv), 0, 0, "sync", None, None))
